@@ -35,7 +35,7 @@ COMPONENTS = {"real": ["all flat/grouped parse entry points of both integrations
               "stub": ["corrupting channel (corrupt / hostile fault kinds)", "watchdog and RLIMIT_AS safety net"]}
 ASSUMPTIONS = ["resident, not virtual, memory is judged: bound 48 MiB + 2048 x input length per input (memory proportional to the bytes actually received is allowed, memory proportional to declared sizes is not)",
                "a MemoryError counts as an ordinary exception only when resident growth stayed within the bound",
-               "hang = no result within 20 s for an input that normally takes < 5 ms, confirmed by two re-runs"]
+               "hang = no result within 30 s for an input that normally takes < 5 ms, confirmed by two re-runs"]
 PROBES = ["kind_random", "kind_mutated", "kind_hostile", "returned", "raised", "raised_MemoryError",
           "hostile_table_sizes", "hostile_frame_length", "hostile_nesting", "hostile_string_length",
           "hostile_options_position", "hostile_many_frames", "hostile_long_varint", "frontend_raw", "frontend_buffered", "children_forked"]
@@ -44,7 +44,7 @@ WALL = {"quick": 1500, "thorough": 20000}
 RSS_BASE = 48 << 20
 RSS_PER_BYTE = 2048      # an empty 1-byte frame costs one Python + one protobuf object (measured ~900 B)
 SHRINK_BUDGET = (60, 15.0)
-TIMEOUT = 20.0
+TIMEOUT = 30.0
 
 
 def generate(rng, run, tier):
@@ -466,7 +466,7 @@ def execute(plan, sim):
         if oc in ("returned", "raised") and res["items"] > max(res["len"], 1):
             v.setdefault(("items",), {"clause": "C17.more_items_than_bytes", "sig": sig_base,
                                       "msg": f"{where}: {res['items']} items from {res['len']} bytes"})
-        if oc in ("returned", "raised") and res["secs"] > 10:
+        if oc in ("returned", "raised") and res["secs"] > 15:
             v.setdefault(("slow",), {"clause": "C17.not_prompt", "sig": sig_base,
                                      "msg": f"{where}: took {res['secs']:.1f} s"})
     return list(v.values()), frozenset(keys) if keys else None
